@@ -23,9 +23,17 @@ type c16Case struct {
 	RawURL  string `json:"raw_url,omitempty"`
 	Field   string `json:"field,omitempty"`
 	Value   string `json:"value,omitempty"`
+	AppDef  bool   `json:"application_changed_the_exported_defaults,omitempty"`
 }
 
 func urlRoundTrip(c c16Case) (obs, bad string) {
+	if c.AppDef {
+		// an application may assign the exported defaults: what a URL says and parses back to is still the input
+		sh, st := *otp.DefaultHOTPParam, *otp.DefaultTOTPParam
+		*otp.DefaultTOTPParam = otp.Param{Digits: otp.Digits(c.Digits), Period: uint(c.Period), Skew: 5, Algorithm: otp.Algorithm(c.Algo)}
+		*otp.DefaultHOTPParam = otp.Param{Digits: otp.Digits(c.Digits), Period: uint(c.Period), Skew: 9, Algorithm: otp.Algorithm(c.Algo)}
+		defer func() { *otp.DefaultHOTPParam, *otp.DefaultTOTPParam = sh, st }()
+	}
 	p := otp.URLParam{Issuer: c.Issuer, AccountName: c.Account, Secret: c.Secret, Digits: otp.Digits(c.Digits), Algorithm: otp.Algorithm(c.Algo), Period: uint(c.Period)}
 	var u *url.URL
 	var err error
@@ -41,7 +49,11 @@ func urlRoundTrip(c c16Case) (obs, bad string) {
 	if err != nil {
 		return "generror|" + errStr(err), "generation failed for non-empty issuer/account/secret"
 	}
-	text := u.String()
+	var text string
+	if pn := try(func() { text = u.String() }); pn != "" {
+		// the value handed out does not hold still (it shares memory with something that is written later)
+		return "panic:" + pn, "turning the returned URL into text panicked: " + pn
+	}
 	obs = text
 	if u.Scheme != "otpauth" || !strings.HasPrefix(text, "otpauth://"+c.Kind+"/") {
 		return obs, "scheme/type: want otpauth://" + c.Kind + "/…"
@@ -140,6 +152,11 @@ func c16(r *ev.Run) {
 				cs = append(cs, c16Case{Kind: []string{"totp", "hotp"}[(i+j)%2], Issuer: iss, Account: acc, Secret: "JBSWY3DPEHPK3PXP", Digits: []int{6, 8, 0, 10}[i], Algo: j, Period: []uint64{30, 60, 0}[j]})
 			}
 		}
+		for _, per := range []uint64{60, 30, 0, 45} {
+			for a := 0; a < 3; a++ {
+				cs = append(cs, c16Case{Kind: []string{"totp", "hotp"}[a%2], Issuer: "Example", Account: "alice@example.com", Secret: "JBSWY3DPEHPK3PXP", Digits: []int{8, 6, 10}[a], Algo: a, Period: per, AppDef: true})
+			}
+		}
 		afterWarmups(r, "round-trip-after-other-operations", cs, urlRoundTrip)
 		var ps []c16Case
 		for _, v := range []string{"6", "8", "10", "255", "256", "-1", "0x6", "06", "abc", "4294967302"} {
@@ -175,7 +192,10 @@ func c16(r *ev.Run) {
 			us = append(us, u)
 		}
 		for i, u := range us {
-			text := u.String()
+			var text string
+			if pn := try(func() { text = u.String() }); pn != "" {
+				return obs, fmt.Sprintf("turning URL %d of the batch into text panicked: %s", i, pn)
+			}
 			obs += text + " "
 			pu, err := url.Parse(text)
 			if err != nil {
